@@ -6,7 +6,7 @@ TRUSTED = [
     "Lean 4.33 kernel; axioms per theorem listed under coverage.axioms (subset of propext, Classical.choice, Quot.sound)",
     "translate/eclio.py (EclIOdata.hpp constants -> Gen/EclIO.lean), cross-checked by the byte-exact correspondence",
     "harness/eclio.cpp + lib/vlib.py differ; model driver (compiled Lean)",
-    "modelled, not verified: snprintf digit generation of formatted REAL/DOUB fields (inputs of the formatted model); strtod and (float) are modelled exactly in Model/Strtod.lean but only compared (bit for bit) with the real reader, no theorem about their rounding; inf/nan/hex tokens outside that model; iostream buffering; X231 headers (>= 2^31 elements)",
+    "modelled, not verified: snprintf digit generation of formatted REAL/DOUB fields (inputs of the formatted model); strtod and (float) are modelled in Model/Strtod.lean and compared bit for bit with the real reader; the rounding core is proved correct (nearest, ties to even, normalised: strtod_model_rounds_correctly) — assumed of libc: glibc strtod is correctly rounded; the bit encoding, the ERANGE rule and the double->float step are compared only; inf/nan/hex tokens outside that model; iostream buffering; X231 headers (>= 2^31 elements)",
 ]
 
 
